@@ -340,6 +340,7 @@ def gen_project(rng):
             continue
         seen.add((a, b))
         deps.append({"src": pa, "dst": pb, "gap": rng.choice([None, None, "3h", "1h", "20min", "26h"]),
+                     "gaplen": rng.choice([None, None, None, "4h", "1d", "2d"]),     # working-time gap (gaplength)
                      "onstart": rng.random() < 0.2})
     return {"start": rng.choice(["2025-01-06", "2025-01-06", "2025-01-08", "2025-02-03"]), "weeks": 8, "shift": shift,
             "resources": resources, "tasks": tasks, "deps": deps}
@@ -508,6 +509,8 @@ def render_project(proj, opt):
         o = []
         if d["gap"]:
             o.append("gapduration " + d["gap"])
+        if d.get("gaplen"):
+            o.append("gaplength " + d["gaplen"])
         if d["onstart"]:
             o.append("onstart")
         return ref + ((" { " + " ".join(o) + " }") if o else "")
